@@ -139,26 +139,6 @@ def realOf (a : Expr) : Expr :=
 /-- node construction without any simplification -/
 def plainRb : Rb := fun k aux args => some (.op k aux args)
 
-/-- operator classes whose constructor (with its simplifications) `Expr.rebuild` models -/
-def modelledCtor : Op → Bool
-  | .sum | .product | .division | .power | .abs | .conj | .real | .imag | .indexed | .indexSum | .componentTensor
-  | .listTensor | .conditional | .minValue | .maxValue | .eQ | .nE | .lT | .gT | .lE | .gE | .andCondition | .orCondition
-  | .notCondition | .variable => true
-  | _ => false
-
-/-- the class constructors, propagating the marker of branches the constructor model does not cover.
-    A literal or zero operand can appear under a rebuilt node (e.g. `Re([-0.25, x])[0]` becomes the
-    literal once `Re` is removed); the constructors not modelled in `Expr.rebuild` (math functions
-    fold literals in floating point, compound operators simplify zeros) are then not covered. -/
-def rebuildU : Rb := fun k aux ops =>
-  if ops.any isUnsupported then some unsupported
-  else
-    let lits := match k with
-      | .besselJ | .besselY | .besselI | .besselK => ops.drop 1       -- the order is always a literal
-      | _ => ops
-    if !modelledCtor k && lits.any (fun o => isScalarValue o || isZero o) then some unsupported
-    else rebuild k aux ops
-
 /-- `MultiFunction.reuse_if_untouched` -/
 def reuse (rb : Rb) (k : Op) (aux : List Nat) (args ops : List Expr) : Option Expr :=
   if beqL ops args then some (.op k aux args) else rb k aux ops
